@@ -671,6 +671,9 @@ impl Scenario for E2eSim {
         let mut out = Outcome::default();
         let (res, panics) = run_world(case, 6 * 3600);
         panic_violations(&panics, &mut out);
+        if let Some(m) = crate::net::take_spin() {
+            out.violations.push(Violation::new("C01", "spins_after_end_of_stream", json!({"kind": "busy_loop"}), format!("a reader in the library keeps reading a closed connection in a loop without yielding: {}", m)));
+        }
         if std::env::var("VERIF_TRACE").is_ok() {
             for (id, r) in &res.recs {
                 eprintln!("client req {}: {:?} start={} head={:?} end={:?} conn={:?} status={:?}", id, r.outcome, r.start_ms, r.head_ms, r.end_ms, r.conn, r.status);
